@@ -29,7 +29,7 @@ ASSUMPTIONS = [
     'the text -> z3 interpreter is validated each run against Python eval on the same texts (self-test instance)',
 ]
 BOUNDS = {'quick': dict(systems=70, variables='<=3', lines='<=3'), 'thorough': dict(systems=700, variables='<=3', lines='<=3', seeds=3)}
-BUDGET = {'quick': 400, 'thorough': 3600}
+BUDGET = {'quick': 1800, 'thorough': 3600}
 MARGIN = 1e-9
 
 
